@@ -29,6 +29,7 @@ type Prog struct {
 	typeIndex    map[string]types.Type
 	pkgDirs      map[string]string
 	mutGlobals   map[*ssa.Global]bool // package-level variables assigned outside package initialisers
+	noExport     map[string]bool      // ensures obligations with an open known finding: never assumed at call sites
 }
 
 func loadProg(repo, verifDir string) (*Prog, error) {
@@ -134,6 +135,13 @@ func loadProg(repo, verifDir string) (*Prog, error) {
 		return nil, err
 	}
 	p.cs = cs
+	p.noExport = map[string]bool{}
+	var kf KFFile
+	if readJSON(filepath.Join(verifDir, "known_findings.json"), &kf) == nil {
+		for _, f := range kf.Findings {
+			p.noExport[f.Obligation] = true
+		}
+	}
 	for _, fc := range cs.Funcs {
 		if fc.Lib && fc.Opts["inline"] != "" {
 			p.inlineExtern[fc.Name] = true
@@ -236,6 +244,12 @@ func (p *Prog) verifyFunc(fn *ssa.Function) (u *Unit) {
 		s.regs[prm] = t
 		u.entryVals[prm.Name()] = t
 	}
+	if fn.Name() == "init" && fn.Pkg != nil {
+		// the package initialiser runs once: its guard variable is false on entry
+		if g, ok := fn.Pkg.Members["init$guard"].(*ssa.Global); ok {
+			s.cells[g] = Term{S: "false", Sort: "Bool"}
+		}
+	}
 	u.ss.tags["tag.plainerror"] = len(u.ss.tags) + 1
 	u.ss.tagOrder = append(u.ss.tagOrder, "tag.plainerror")
 	u.entry = s // provisional, so that requires can be translated
@@ -305,7 +319,7 @@ func (p *Prog) verifyFunc(fn *ssa.Function) (u *Unit) {
 			env.names["result"] = rets[0]
 		}
 		for _, c := range u.fc.Clauses {
-			if c.Kind != "ensures" {
+			if c.Kind != "ensures" && c.Kind != "ensures-local" {
 				continue
 			}
 			g, err := env.formula(c.Expr)
